@@ -175,7 +175,8 @@ func runCurve() {
 			if prop == "C12" || prop == "C10" || prop == "" {
 				var out []byte
 				var ok bool
-				if !guard(tr, "EdPublicKeyToX25519", func() { out, ok = x25519.EdPublicKeyToX25519(ed25519.PublicKey(b)) }) {
+				arg := append([]byte{}, b...)
+				if !guard(tr, "EdPublicKeyToX25519", func() { out, ok = x25519.EdPublicKeyToX25519(ed25519.PublicKey(arg)) }) {
 					inv := big.NewInt(0)
 					if di.OK {
 						den := refmodel.Fsub(big.NewInt(1), di.Y)
@@ -187,7 +188,7 @@ func runCurve() {
 						out = []byte{}
 					}
 					tr.Emit(map[string]interface{}{"op": "edpub2x", "bytes": hx.Ints(b), "wkind": kind, "witness": wit, "ok": ok, "out": hx.Ints(out),
-						"inv": hx.Ints(refmodel.LE(inv, 32)), "cfg": cfg})
+						"inv": hx.Ints(refmodel.LE(inv, 32)), "unchanged": bytes.Equal(arg, b), "cfg": cfg})
 				}
 			}
 			if (prop == "C09" || prop == "") && di.OK {
@@ -445,6 +446,25 @@ func x25519Events(tr *hx.Trace, r *hx.Rng, thorough bool) {
 		}
 	}
 	_ = targets
+	// sub-slices of the exported base-point slice (same first element, wrong length) must be length errors
+	for _, n := range []int{0, 1, 5, 31} {
+		var got []byte
+		var err error
+		sc := r.Bytes(32)
+		if !guard(tr, "X25519", func() { got, err = x25519.X25519(sc, x25519.Basepoint[:n]) }) {
+			if got == nil {
+				got = []byte{}
+			}
+			tr.Emit(map[string]interface{}{"op": "x25519", "scalarLen": 32, "pointLen": n, "scalar": hx.Ints(sc), "point": fmt.Sprintf("Basepoint[:%d]", n),
+				"err": err != nil, "got": hx.Ints(got), "expected": hx.Ints(make([]byte, 32)), "fastEqGeneric": true, "what": "", "cfg": cfg})
+		}
+	}
+	// points that differ from the base point in a single bit (a sloppy "is this the base point" test would take the fast path)
+	for bit := 0; bit < 256; bit++ {
+		u := append([]byte{}, nine...)
+		u[bit/8] ^= 1 << uint(bit%8)
+		emit(r.Bytes(32), u, "base-point-bitflip")
+	}
 	for _, lo := range lowOrderU {
 		emit(r.Bytes(32), lo, "low-order")
 		hi := append([]byte{}, lo...)
